@@ -9,6 +9,7 @@ from ..world import K
 LEVEL = 'model_checking'
 PREFIX = (('f',), ('f', 's'))
 LABELS = ('e', 'a', 'b', 'c', 'd')
+LABELS2 = ('e', 'a', 'g', 'y')     # incl. transactions / rewards paying a never-seen key twice
 
 
 def view_digest(utxo, bal):
@@ -65,7 +66,7 @@ def check_views(cs, uni, stored, out, hist, tag):
     return n_cmp
 
 
-def _worker(hists):
+def _worker(hists, quick_modes=False):
     from skepticoin.wallet import Wallet
     ledger.setup()
     uni = ledger.tx_universe('easy')
@@ -74,10 +75,14 @@ def _worker(hists):
     stats = {'states': 0, 'transitions': 0, 'views': 0, 'snapshots': 0, 'orders': 0}
     wallet = Wallet({K[0].pub: K[0].priv, K[1].pub: K[1].priv}, [K[1].pub], {K[0].pub: 'x'})
     digests = []
+    deepest = max(len(h) for h in hists) if quick_modes else 99
     for hist in hists:
         stored = [uni.root] + [uni.get(p) for p in hist]
         per_block = None
-        for validated, lookups in ((True, None), (False, None), (True, 'head'), (False, 'all')):
+        modes = ((True, None), (False, None), (True, 'head'), (False, 'all'))
+        if len(hist) >= deepest:
+            modes = ((True, 'head'), (False, None))     # quick tier: two of the four build modes at the deepest level
+        for validated, lookups in modes:
             snaps = []
             try:
                 cs, fc = ledger.build(uni, hist, now, validated, snapshots=snaps, lookups=lookups)
@@ -154,19 +159,26 @@ def _worker(hists):
     return stats, out[:30]
 
 
+def _worker_q(hists):
+    return _worker(hists, quick_modes=True)
+
+
 def run(ctx):
     ledger.setup()
     uni = ledger.tx_universe('easy')
     depth = 4 if ctx.quick else 5
     levels = ledger.enumerate_histories(uni, PREFIX, LABELS, depth)
+    levels2 = ledger.enumerate_histories(uni, PREFIX, LABELS2, depth - 1)
     hists = [h for lv in levels for h in lv]
-    ctx.log("histories per level", [len(l) for l in levels])
+    have = set(hists)
+    hists += [h for lv in levels2 for h in lv if h not in have]
+    ctx.log("histories per level", [len(l) for l in levels], "second menu", [len(l) for l in levels2])
     if ctx.seed:
         import random
         random.Random(ctx.seed).shuffle(hists)
     nchunk = ctx.ncpu * 8
     chunks = [hists[i::nchunk] for i in range(nchunk)]
-    res = ctx.pmap(_worker, [c for c in chunks if c])
+    res = ctx.pmap(_worker_q if ctx.quick else _worker, [c for c in chunks if c])
     tot = {}
     for st, out in res:
         for k, v in st.items():
@@ -189,7 +201,8 @@ def run(ctx):
         'samples': [ledger.hist_str(levels[-1][0]), ledger.hist_str(levels[-1][len(levels[-1]) // 2])],
         'histories_per_depth': [len(l) for l in levels], 'snapshots_rechecked': tot.get('snapshots', 0),
         'alternative_orders': tot.get('orders', 0), 'histories_with_same_tx_on_two_forks': shared,
-        'exhaustive': True, 'bounds': {'blocks_beyond_prefix': depth, 'labels': list(LABELS)},
+        'exhaustive': True, 'bounds': {'blocks_beyond_prefix': depth, 'labels': list(LABELS),
+                                       'second_menu': {'labels': list(LABELS2), 'blocks_beyond_prefix': depth - 1}},
         'rule': "BFS over arrival histories (any stored parent x payload menu), de-duplicated on (stored set, head); "
                 "each kept history is driven through add_block and add_block_no_validation; every stored block's "
                 "unspent set and balances are compared with the reference replay (traces_validated = per-block view "
